@@ -22,12 +22,12 @@ vars == <<case, res>>
 
 N(s)  == NumLit(s)
 A1 == RelRef(1, 1)
-Sheets == <<"", "Sheet2", "S 2", "O'x">>
+Sheets == <<"", "Sheet2", "S 2", "O'x", "2024", "1st Q", "TRUE1">>
 
 Atoms == << N(<<50>>), N(<<48, 46, 53>>), N(<<53, 48, 37>>), N(<<49, 69, 43, 50>>), N(<<49, 50, 51, 52, 53>>),
             StrLit(<<97, 32, 98>>), StrLit(<<34>>), StrLit(<<>>), BoolLit(TRUE), BoolLit(FALSE),
             ErrLit("#N/A"), ErrLit("#DIV/0!"), ErrLit("#REF!"), ErrLit("#NAME?"), ErrLit("#NULL!"), ErrLit("#VALUE!"), ErrLit("#NUM!"),
-            A1, Ref("", 2, 2, TRUE, TRUE), Ref("Sheet2", 3, 3, FALSE, FALSE), Ref("S 2", 27, 10, FALSE, TRUE),
+            A1, Ref("", 2, 2, TRUE, TRUE), Ref("Sheet2", 3, 3, FALSE, FALSE), Ref("S 2", 27, 10, FALSE, TRUE), Ref("2024", 1, 1, FALSE, FALSE),
             Rng("", 1, 1, 2, 2), Rng("O'x", 1, 1, 2, 3),
             CallN("PI", <<>>), CallN("SUM", <<N(<<49>>), A1>>) >>
 NAtoms == Len(Atoms)
@@ -105,10 +105,10 @@ InitCase ==
   \/ /\ "str" \in Families
      /\ \E s \in Strs(StrLen), i \in 1..6 : case = Mk("str", StrCtx(i, s), Style0)
   \/ /\ "ref" \in Families
-     /\ \E sh \in 1..4, c \in {1, 26, 27, 703}, r \in {1, 10, 1048576}, ac \in BOOLEAN, ar \in BOOLEAN, i \in {1, 2, 3, 5, 7, 11} :
+     /\ \E sh \in 1..7, c \in {1, 26, 27, 703}, r \in {1, 10, 1048576}, ac \in BOOLEAN, ar \in BOOLEAN, i \in {1, 2, 3, 5, 7, 11} :
           case = Mk("ref", Ctx(i, Ref(Sheets[sh], c, r, ac, ar)), Style0)
   \/ /\ "ref" \in Families
-     /\ \E sh \in 1..4, a1 \in BOOLEAN, b1 \in BOOLEAN, a2 \in BOOLEAN, b2 \in BOOLEAN, i \in {1, 2, 3} :
+     /\ \E sh \in 1..7, a1 \in BOOLEAN, b1 \in BOOLEAN, a2 \in BOOLEAN, b2 \in BOOLEAN, i \in {1, 2, 3} :
           case = Mk("range", Ctx(i, [k |-> "range", sheet |-> Sheets[sh], c1 |-> 2, r1 |-> 3, a1 |-> a1, b1 |-> b1,
                                      c2 |-> 28, r2 |-> 12, a2 |-> a2, b2 |-> b2]), Style0)
   \/ /\ "call" \in Families
